@@ -349,10 +349,18 @@ fn issue<'a>(
                 }
             }
             Req::Subscribe(d) => {
+                // registered in the harness's bookkeeping when the request is issued (a later
+                // unsubscribe that is queued right behind it must name this channel), taken out
+                // again if the request fails
                 let (tx, rx) = async_channel::unbounded();
+                subs.borrow_mut()[d as usize].push((tx.clone(), rx));
                 let r = h.subscribe(ns_id(d), tx.clone()).await;
-                if r.is_ok() {
-                    subs.borrow_mut()[d as usize].push((tx, rx));
+                if r.is_err() {
+                    let mut s = subs.borrow_mut();
+                    if let Some(pos) = s[d as usize].iter().rposition(|(t, _)| t.same_channel(&tx)) {
+                        let (_, rx) = s[d as usize].remove(pos);
+                        keep.borrow_mut().push(rx);
+                    }
                 }
                 res(r)
             }
